@@ -126,6 +126,11 @@ def fold_events(effs, outer):
 
 
 def run(ctx):
+    _run(ctx)
+    ctx.delegate("C19", ["C19.pred"], "C05.dims",
+                 "the header Z / M ranges are grown for exactly the types that carry Z / M: has_z / has_m equal the ESRI columns", floor=28)
+
+def _run(ctx):
     F = ctx.facts("default")
     ctx.rule("C05.fields", "each ShrinkablePoint/GrowablePoint impl updates exactly the f64 fields of its point type (field list from "
                            "the ADT), field f from (self.f, other.f), shrink through the min function and grow through the max function", floor=6)
@@ -429,3 +434,20 @@ def run(ctx):
         ctx.ob("C05.header", "emitted from the in-memory box", True, "binding of header bytes 36..100 to bbox fields is decided by C02.header", trivial=True)
         ctx.ob("C05.header", "growth after emission of each record", all((W.header_field, 'bbox', 'min', 'x') in W.stores(p) for p in ps if W.classify(p) == 'ok'),
                "every successful write grows the header box", site=ctx.site_of(F, fw["def"]), key="C05.header|grow-each-write")
+        # ... and only a successful one: the box is grown after the last fallible operation of the write, so a shape whose
+        # record could not be written leaves the header box alone
+        late = True
+        n_ok = 0
+        for p in ps:
+            if W.classify(p) != 'ok':
+                continue
+            n_ok += 1
+            effs = list(absint.flat_effects(p.eff))
+            grow_at = [i for i, e in enumerate(effs) if e[0] == 'store' and e[1][0] == wm.SELF and len(e[1][1]) >= 3 and
+                       e[1][1][0] == ('f', W.header_field) and e[1][1][1][0] == 'f' and e[1][1][2][0] == 'f' and e[1][1][2][1] in ('min', 'max')]
+            io_at = [i for i, e in enumerate(effs) if e[0] == 'io']
+            if grow_at and io_at and min(grow_at) < max(io_at):
+                late = False
+        ctx.ob("C05.header", "growth only after the record is out", late and n_ok > 0,
+               "on every successful path the first store into the header box's min/max comes after the last I/O of the write",
+               site=ctx.site_of(F, fw["def"]), key="C05.header|grow-after-io")
